@@ -1,5 +1,6 @@
 import WhatIs.Base.Info
 import WhatIs.Model.Jwt
+import WhatIs.Model.Json
 import WhatIs.Spec.Rfc4648
 import WhatIs.Oracle.C17
 /-
@@ -137,8 +138,42 @@ def holds (c : Case) (impl : String) : String :=
     | none => "FAILS unparsable impl info"
   | some _, _ => "FAILS jwt_iff: three base64 segments with two JSON objects, but not reported as a JWT"
 
+/-- byte-wise lexicographic order (Go's `sort.Strings`) -/
+def bytesLt : Bytes → Bytes → Bool
+  | [], [] => false
+  | [], _ :: _ => true
+  | _ :: _, [] => false
+  | a :: x, b :: y => a < b || (a == b && bytesLt x y)
+
+def insertSorted (p : Bytes × JVal) : List (Bytes × JVal) → List (Bytes × JVal)
+  | [] => [p]
+  | q :: r => if bytesLt p.1 q.1 then p :: q :: r else q :: insertSorted p r
+
+/-- canonical text of a document: `obj n (name kind value)*` sorted by name, or `bad` (null included) -/
+def showDoc : JDoc → String
+  | .obj kv =>
+    let sorted := kv.foldl (fun acc p => insertSorted p acc) []
+    let cell (p : Bytes × JVal) : String :=
+      hexOfBytesStr p.1 ++ " " ++ (match p.2 with
+        | .str s => "s " ++ hexOfBytesStr s
+        | .num n => if n.natAbs < 2 ^ 64 then "n " ++ hexOfBytesStr (intToDec n)
+                    else if n < 0 then "N " ++ hexOfBytesStr [45] else "N " ++ hexOfBytesStr [43]
+        | .other => "o -")
+    " ".intercalate (["obj", toString sorted.length] ++ sorted.map cell)
+  | _ => "bad"
+
 def handle (op : String) (args : List String) (impl : String) : Option (String × String) :=
   match op with
+  | "json" =>
+    -- json <text> T <ground truth tokens>: model = the Lean JSON reader on the text; holds = the repository's reading
+    -- equals the RFC 8259 ground truth recorded by the harness
+    match args with
+    | d :: "T" :: truth =>
+      (bytesOfHexStr d).map fun b =>
+        (showDoc (Json.doc b),
+         if impl == " ".intercalate truth then "holds"
+         else "FAILS json_object: the JSON text is not read as RFC 8259 says (object members, last duplicate wins, strings decoded, numbers exact; anything else is refused)")
+    | _ => none
   | "jwt" =>
     match parseCase args with
     | some c =>
